@@ -176,6 +176,7 @@ func evalC17(cs *c17Case) (vs []*Violation) {
 	}
 	defer recoverTo3(add)
 	flags := sipsp.POptFlags(cs.Mode.Flags)
+	f1 := flags &^ sipsp.POptInputEndF // first of two calls: the input is not complete yet, the end flag comes with the last call
 	cmpItem := func(i int, p *sipsp.PTokParam, what string) {
 		e := exp[i]
 		if int(p.Name.Offs) != e.NS || int(p.Name.Offs+p.Name.Len) != e.NE {
@@ -199,13 +200,18 @@ func evalC17(cs *c17Case) (vs []*Violation) {
 		var p sipsp.PTokParam
 		offs := 0
 		avail := len(buf)
-		if cs.Cut > 0 && cs.Cut < len(buf) {
-			avail = cs.Cut
+		first := false // a first call without the end flag is still due
+		if cs.Cut > 0 && cs.Cut <= len(buf) {
+			avail, first = cs.Cut, true
 		}
 		for i := 0; ; i++ {
-			n, e := sipsp.ParseTokenParam(buf[:avail], offs, &p, flags)
-			if e == sipsp.ErrHdrMoreBytes && avail < len(buf) {
-				avail = len(buf)
+			fl := flags
+			if first {
+				fl = f1
+			}
+			n, e := sipsp.ParseTokenParam(buf[:avail], offs, &p, fl)
+			if e == sipsp.ErrHdrMoreBytes && first {
+				avail, first = len(buf), false
 				n, e = sipsp.ParseTokenParam(buf, n, &p, flags)
 			}
 			if len(exp) == 0 {
@@ -249,9 +255,9 @@ func evalC17(cs *c17Case) (vs []*Violation) {
 		}
 		var n, cnt int
 		var e sipsp.ErrorHdr
-		if cs.Cut > 0 && cs.Cut < len(buf) {
+		if cs.Cut > 0 && cs.Cut <= len(buf) {
 			var c1 int
-			if n, c1, e = sipsp.ParseAllURIParams(buf[:cs.Cut], 0, &l, flags); e == sipsp.ErrHdrMoreBytes {
+			if n, c1, e = sipsp.ParseAllURIParams(buf[:cs.Cut], 0, &l, f1); e == sipsp.ErrHdrMoreBytes {
 				n, cnt, e = sipsp.ParseAllURIParams(buf, n, &l, flags)
 			}
 			cnt += c1
@@ -305,9 +311,9 @@ func evalC17(cs *c17Case) (vs []*Violation) {
 		}
 		var n, cnt int
 		var e sipsp.ErrorHdr
-		if cs.Cut > 0 && cs.Cut < len(buf) {
+		if cs.Cut > 0 && cs.Cut <= len(buf) {
 			var c1 int
-			if n, c1, e = sipsp.ParseAllURIHdrs(buf[:cs.Cut], 0, &l, flags); e == sipsp.ErrHdrMoreBytes {
+			if n, c1, e = sipsp.ParseAllURIHdrs(buf[:cs.Cut], 0, &l, f1); e == sipsp.ErrHdrMoreBytes {
 				n, cnt, e = sipsp.ParseAllURIHdrs(buf, n, &l, flags)
 			}
 			cnt += c1
@@ -458,7 +464,7 @@ func checkC17(r *Run) {
 		eq  bool
 		val string
 	}
-	vals := []nv{{false, ""}, {true, ""}, {true, "v1"}, {true, "\"q\""}, {true, "\"a\\\";b\""}}
+	vals := []nv{{false, ""}, {true, ""}, {true, "v1"}, {true, "\"q\""}, {true, "\"a\\\";b\""}, {true, "\"c:\\\\\""}} // the last one ends in an escaped backslash
 	var items []plItem
 	for _, n := range names {
 		for _, v := range vals {
@@ -499,9 +505,7 @@ func checkC17(r *Run) {
 		}
 		// two-chunk delivery, every cut, for a deterministic selection of cases (never with the end-of-input flag:
 		// it declares the first chunk complete)
-		if cs.Mode.Flags&uint(sipsp.POptInputEndF) != 0 {
-			return
-		}
+		endMode := cs.Mode.Flags&uint(sipsp.POptInputEndF) != 0
 		buf, _, _, _, _ := cs.render()
 		var hsh uint32 = 2166136261
 		for _, b := range buf {
@@ -511,7 +515,11 @@ func checkC17(r *Run) {
 		if int(hsh>>8)%cutEvery != 0 {
 			return
 		}
-		for cut := 1; cut < len(buf); cut++ {
+		last := len(buf) - 1
+		if endMode {
+			last = len(buf) // end-of-input modes: also a last call that brings no new byte, only the flag
+		}
+		for cut := 1; cut <= last; cut++ {
 			cc := *cs
 			cc.Cut = cut
 			c.st.Evals++
@@ -617,6 +625,33 @@ func checkC17(r *Run) {
 						run(c, &cs2)
 					}
 				}
+			}
+		}
+	})
+	// longer lists: n = 4..24 and 99..102 items (names with a running number, values of all forms), every mode
+	parallelFor(r, len(modes)*25, func(c *enumCtx, k int) {
+		m, n := modes[k/25], []int{4, 5, 6, 7, 8, 9, 10, 11, 12, 13, 14, 15, 16, 17, 18, 19, 20, 21, 22, 23, 24, 99, 100, 101, 102}[k%25]
+		var its []plItem
+		for i := 0; i < n; i++ {
+			v := vals[(i+n)%len(vals)]
+			nm := fmt.Sprintf("p%d", i)
+			if i%7 == 3 {
+				nm = names[(i/7)%len(names)] + fmt.Sprint(i)
+			}
+			its = append(its, plItem{Name: nm, HasEq: v.eq, Val: v.val, Seps: 1})
+		}
+		its[n-1].Seps = 0
+		if m.Term == "sp" && its[n-1].HasEq && its[n-1].Val == "" {
+			its[n-1].Val = "z"
+		}
+		for _, cp := range []int{-1, 0, 1, n - 1, n, n + 1} {
+			cs := c17Case{Mode: m, Cap: cp, Items: append([]plItem(nil), its...)}
+			if m.Term == "sp" {
+				cs.TermLWS = " "
+			}
+			run(c, &cs)
+			if m.Via == "tok" {
+				break // the capacity only exists for the list wrappers
 			}
 		}
 	})
